@@ -228,7 +228,7 @@ def execute(sc):
                         # the caller re-uses its start array: the chain already recorded must read out unchanged
                         S0, P0 = h.rows()
                         st_arr = h.inputs["start"]
-                        st_arr += 1000.0 + np.arange(st_arr.size, dtype=float).reshape(st_arr.shape)
+                        st_arr += (1000 + np.arange(st_arr.size)).reshape(st_arr.shape).astype(st_arr.dtype)
                         stats["fault_caller_overwrites_start_array"] += 1
                         S1, P1 = h.rows()
                         if S1.shape != S0.shape or not np.array_equal(S1, S0) or not np.array_equal(P1, P0):
